@@ -302,7 +302,14 @@ func genCase(t *rapid.T) (Case, bool) {
 		return c, false
 	}
 	var fn []string
-	for name, src := range p.RootSources(rootPath) {
+	rs := p.RootSources(rootPath)
+	var rnames []string
+	for name := range rs {
+		rnames = append(rnames, name)
+	}
+	sort.Strings(rnames) // (draws inside a map iteration would make a run depend on map order)
+	for _, name := range rnames {
+		src := rs[name]
 		if rapid.IntRange(0, 5).Draw(t, "linedir") == 0 {
 			src = "//line grammar.y:1\n" + src
 			h.Label("line-directive-before-package")
